@@ -24,13 +24,39 @@ def encoded_functions():
     }
 
 
+def _weight(item):
+    d = item["desc"]
+    import json
+    txt = json.dumps(d["ot"]) + json.dumps(d["st"])
+    nleaf = txt.count('"')  # 2 per leaf
+    poly = 0 if (_binary(d["ot"]) and _binary(d["st"])) else 1
+    nf = len(set(g for s in (d.get("leafsyn") or {}).values() for g in s))
+    return poly * 1000 + nleaf * 10 + nf * 5 + len(item["runs"])
+
+
+def _binary(t):
+    return isinstance(t, str) or (len(t) == 2 and all(_binary(c) for c in t))
+
+
+def _tagged_worker(item):
+    r = SR.generic_worker(item)
+    r["section"] = item["section"]
+    return r
+
+
 def run(prop, tier, seed, sections, fn_groups, bounds, explanation, rule, outside, budget, max_paths, budget_s, assumptions=()):
     """sections: list of (name, [ (desc, runs) ], exhaustive flag)."""
     rep = R.Report(prop, tier, seed)
-    for name, pairs, exhaustive in sections:
-        items = [{"prop": prop, "desc": d, "runs": runs, "max_paths": max_paths, "budget_s": budget_s} for d, runs in pairs]
-        res, sk = R.run_sharded(SR.generic_worker, items, budget)
-        rep.add_results(name, res, sk, exhaustive=exhaustive)
+    # one pool for all sections (better utilisation); most expensive sections first
+    items = []
+    for si, (name, pairs, exhaustive) in enumerate(sections):
+        for d, runs in pairs:
+            items.append({"prop": prop, "desc": d, "runs": runs, "max_paths": max_paths, "budget_s": budget_s, "section": si})
+    order = sorted(range(len(items)), key=lambda i: -_weight(items[i]))
+    res, sk = R.run_sharded(_tagged_worker, [items[i] for i in order], budget)
+    for si, (name, pairs, exhaustive) in enumerate(sections):
+        mine = [r for r in res if r.get("section") == si]
+        rep.add_results(name, mine, len(pairs) - len(mine), exhaustive=exhaustive)
     fns = encoded_functions()
     rep.functions = R.source_digest(*[f for g in fn_groups for f in fns[g]])
     rep.bounds = dict(bounds, per_input_path_cap=max_paths)
